@@ -704,7 +704,7 @@ func (cc *Conn) handle(w *responsewriter.ResponseWriter[*Conn], m *pool.Message)
 	}
 	if cc.blockWise != nil {
 		cc.blockWise.Handle(w, m, cc.blockwiseSZX, cc.session.MaxMessageSize(), func(rw *responsewriter.ResponseWriter[*Conn], rm *pool.Message) {
-			if h, ok := cc.tokenHandlerContainer.LoadAndDelete(rm.Token().Hash()); ok {
+			if h, ok := cc.loadAndDeleteTokenHandler(rm); ok {
 				h(rw, rm)
 				return
 			}
@@ -712,11 +712,21 @@ func (cc *Conn) handle(w *responsewriter.ResponseWriter[*Conn], m *pool.Message)
 		})
 		return
 	}
-	if h, ok := cc.tokenHandlerContainer.LoadAndDelete(m.Token().Hash()); ok {
+	if h, ok := cc.loadAndDeleteTokenHandler(m); ok {
 		h(w, m)
 		return
 	}
 	cc.observationHandler.Handle(w, m)
+}
+
+// loadAndDeleteTokenHandler returns the handler that waits for the answer m. Tokens are scoped per direction
+// (RFC 7252 5.3.1): a request of the peer may carry the token bytes of one of our outstanding requests - it is
+// a request, not the response that request is waiting for.
+func (cc *Conn) loadAndDeleteTokenHandler(m *pool.Message) (HandlerFunc, bool) {
+	if m.Code() >= codes.GET && m.Code() < codes.Code(0x20) {
+		return nil, false
+	}
+	return cc.tokenHandlerContainer.LoadAndDelete(m.Token().Hash())
 }
 
 // Sequence acquires sequence number.
